@@ -120,6 +120,10 @@ def isinstance_model(x, v, cls, p, site):
         yield p, Bool(False); return
     if cls in PRIM and v.sort in PRIM[cls]:
         yield p, Bool(PRIM[cls][v.sort]); return
+    if v.sort in ('str', 'int', 'bool') and cls in JSON_CLASSES:
+        yield p, Bool(v.sort in JSON_CLASSES[cls]); return
+    if v.sort in ('str', 'int', 'bool') and cls not in x.c.handlers:
+        yield p, Bool(False); return              # a str/int/bool is never an instance of a library class
     if v.sort == 'none':
         yield p, Bool(False); return
     if v.sort == 'opaque':
@@ -533,3 +537,16 @@ def slice_str(x, o, sl, p, site):
 
 
 REG.slices['str'] = slice_str
+
+
+@method('.items', 'litdict')
+def m_litdict_items(x, recv, args, e, p, site):
+    if isinstance(recv.x, dict): yield p, Val('litlist', x=[Val('tuple', x=[Str(k), v]) for k, v in recv.x.items()])
+    else: yield p, Val('litlist', x=[Val('tuple', x=[k, v]) for k, v in recv.x])
+
+
+@method('.get', 'litdict')
+def m_litdict_get(x, recv, args, e, p, site):
+    if isinstance(recv.x, dict) and not recv.x:
+        yield p, (args[1] if len(args) > 1 else NONE)
+    else: raise Unsupported(site + ' get on non-empty literal dict')
